@@ -141,6 +141,42 @@ func vhSame(a, b any) bool {
 	return false
 }
 
+// vhFormOf names the dynamic type of a tree element as far as harnesses
+// produce them (0 = anything else).
+func vhFormOf(x any) int {
+	switch x.(type) {
+	case nil:
+		return 1
+	case string:
+		return 2
+	case int:
+		return 3
+	case Stack:
+		return 4
+	case *Stack:
+		return 5
+	case vhAliasStack:
+		return 6
+	case *vhAliasStack:
+		return 7
+	case vhAliasStackS:
+		return 8
+	case Condition:
+		return 9
+	case *Condition:
+		return 10
+	case vhAliasCond:
+		return 11
+	case *vhAliasCond:
+		return 12
+	case vhAliasCondS:
+		return 13
+	case *vhAliasCondS:
+		return 14
+	}
+	return 0
+}
+
 // vhAssertContent asserts that the stack's user-visible content is exactly
 // model: Len, then every position read back through the raw slice (exact)
 // and through Index (as far as Index can see it: nil slots read as failure).
